@@ -35,13 +35,49 @@ func (f *file) countCalls(fnName string, pred func(callee string) bool) (int64, 
 	return n, true
 }
 
-// durMillis finds in fn the first product `time.Millisecond * <lit>` (either operand order) that is
-// the initialiser / argument at the place selected by want (nth occurrence, 0-based).
-func (f *file) durMillis(fnName string, nth int) (int64, bool) {
+// localDefExprs: identifiers of fd defined exactly once by `x := e` / `var x = e`, with e
+func localDefExprs(fd *ast.FuncDecl) map[string]ast.Expr {
+	defs := map[string]ast.Expr{}
+	count := map[string]int{}
+	ast.Inspect(fd, func(n ast.Node) bool {
+		switch x := n.(type) {
+		case *ast.AssignStmt:
+			for i, l := range x.Lhs {
+				if id, ok := l.(*ast.Ident); ok {
+					count[id.Name]++
+					if x.Tok == token.DEFINE && len(x.Lhs) == len(x.Rhs) {
+						defs[id.Name] = x.Rhs[i]
+					}
+				}
+			}
+		case *ast.ValueSpec:
+			for i, id := range x.Names {
+				count[id.Name]++
+				if len(x.Values) == len(x.Names) {
+					defs[id.Name] = x.Values[i]
+				}
+			}
+		}
+		return true
+	})
+	for k := range defs {
+		if count[k] != 1 {
+			delete(defs, k)
+		}
+	}
+	return defs
+}
+
+// durMillis finds in fn the nth (0-based) call whose callee's printed form ends in calleeSuffix
+// (e.g. "time.NewTicker", "time.Now().Add") and whose single argument is a constant duration — a
+// literal product with a time unit, a named constant, or a local defined once by such an
+// expression — and returns it in milliseconds.
+func (f *file) durMillis(fnName, calleeSuffix string, nth int) (int64, bool) {
 	fd := f.funcDecl(fnName)
 	if fd == nil {
 		return 0, false
 	}
+	defs := localDefExprs(fd)
 	var val int64
 	found := false
 	i := 0
@@ -49,28 +85,26 @@ func (f *file) durMillis(fnName string, nth int) (int64, bool) {
 		if found {
 			return false
 		}
-		be, ok := x.(*ast.BinaryExpr)
-		if !ok || be.Op != token.MUL {
+		c, ok := x.(*ast.CallExpr)
+		if !ok || len(c.Args) != 1 || !strings.HasSuffix(exprStr(f.fset, c.Fun), calleeSuffix) {
 			return true
 		}
-		var lit ast.Expr
-		if exprStr(f.fset, be.X) == "time.Millisecond" {
-			lit = be.Y
-		} else if exprStr(f.fset, be.Y) == "time.Millisecond" {
-			lit = be.X
-		} else {
-			return true
+		arg := c.Args[0]
+		if id, ok := arg.(*ast.Ident); ok {
+			if d, ok := defs[id.Name]; ok {
+				arg = d
+			}
 		}
-		if v, ok := intLit(lit); ok {
+		if v, ok := intLit(arg); ok && v%1e6 == 0 {
 			if i == nth {
-				val, found = v, true
+				val, found = v/1e6, true
 			}
 			i++
 		}
 		return true
 	})
 	if !found {
-		anchorLost("%s: %s: occurrence %d of `time.Millisecond * <literal>` not found", f.path, fnName, nth)
+		anchorLost("%s: %s: constant duration argument %d of `%s(...)` not found", f.path, fnName, nth, calleeSuffix)
 	}
 	return val, found
 }
@@ -109,11 +143,11 @@ func init() {
 			})
 			add("srvRecvDrainChecks", n, true)
 		}
-		v, ok = h.durMillis("tcpHandler.recv", 0) // watchInterval of the deferred drain
+		v, ok = h.durMillis("tcpHandler.recv", "time.NewTicker", 0) // watchInterval of the deferred drain
 		add("srvDrainPollMs", v, ok)
-		v, ok = h.durMillis("tcpHandler.recv", 1) // read deadline once the server is closing
+		v, ok = h.durMillis("tcpHandler.recv", "time.Now().Add", 0) // read deadline once the server is closing
 		add("srvClosingReadDeadlineMs", v, ok)
-		v, ok = s.durMillis("TarsServer.Shutdown", 0)
+		v, ok = s.durMillis("TarsServer.Shutdown", "time.NewTicker", 0)
 		add("srvShutdownPollMs", v, ok)
 		// ts.handle.CloseIdles(<lit>)
 		if fd := s.funcDecl("TarsServer.Shutdown"); fd != nil {
